@@ -498,6 +498,7 @@ class BaseParser:
         result = {}
         dependencies = set()
         unprovided_fields = set()
+        refused = set()
         options = context.options
         provided = {}
 
@@ -551,6 +552,7 @@ class BaseParser:
                 value, = values.values()
             else:
                 value = unprovided
+                conflict = False
                 for alias in field.all_aliases:
                     if alias in values:
                         if unprovided(value):
@@ -559,7 +561,12 @@ class BaseParser:
                                 break
                         elif self._values_differ(values[alias], value):
                             context.handle_error(exc.AliasConflictError(item=name, value=values[alias]))
+                            conflict = True
                             break
+                if conflict:
+                    # (collected) the item is reported: none of its values is looked at
+                    refused.add(name)
+                    continue
 
             if field.is_no_input(value, options=options):
                 # no input field does not take input from __init__
@@ -575,6 +582,9 @@ class BaseParser:
                 # for the fields that depend on it, it counts as not given
                 unprovided_fields.add(name)
             if unprovided(parsed):
+                if field.name not in context.excluded_fields:
+                    # (collected) its value was refused: it was given, the fields that depend on it do not lack it
+                    refused.add(name)
                 continue
 
             result[name] = parsed
@@ -586,6 +596,7 @@ class BaseParser:
 
         if dependencies:
             dependant = set(result)
+            dependant.update(refused)
             if excluded_keys:
                 dependant.update(self.given_elsewhere(excluded_keys, context=context, as_attname=as_attname))
 
@@ -633,6 +644,7 @@ class BaseParser:
         used_alias = set()
         dependencies = set()
         unprovided_fields = set()
+        refused = set()
         options = context.options
 
         for key, field in self.fields.items():
@@ -648,6 +660,7 @@ class BaseParser:
                         value = data[alias]
                         break
             else:
+                conflict = False
                 for alias in field.all_aliases:
                     if alias in data:
                         if unprovided(value):
@@ -655,7 +668,13 @@ class BaseParser:
                         else:
                             if self._values_differ(data[alias], value):
                                 context.handle_error(exc.AliasConflictError(item=name, value=data[alias]))
+                                conflict = True
                                 break
+                if conflict:
+                    # (collected) the item is reported: none of its values is looked at
+                    refused.add(name)
+                    used_alias.update(field.all_aliases)
+                    continue
 
             if unprovided(value):
                 unprovided_fields.add(name)
@@ -686,6 +705,9 @@ class BaseParser:
                 # for the fields that depend on it, it counts as not given
                 unprovided_fields.add(name)
             if unprovided(parsed):
+                if field.name not in context.excluded_fields:
+                    # (collected) its value was refused: it was given, the fields that depend on it do not lack it
+                    refused.add(name)
                 continue
 
             result[name] = parsed
@@ -696,6 +718,7 @@ class BaseParser:
 
         if dependencies:
             dependant = set(result)
+            dependant.update(refused)
             if excluded_keys:
                 dependant.update(self.given_elsewhere(excluded_keys, context=context, as_attname=as_attname))
 
